@@ -669,3 +669,31 @@ _extend("C20", [("""Not proved: parentheses around arbitrary sub-expressions (ex
 APPEND["C08"] = (APPEND["C08"][0] + "\nFrom BCL Require Import Proofs.LexMono.",
                  APPEND["C08"][1] + [("C08_token_positions_sorted", "LexMono", "lex_tpos_mono", "token end offsets are non-decreasing, error tokens included"),
                                      ("C08_code_positions_sorted_all", "LexMono", "prog_positions_sorted_all", "hence the position table of every compiled program is sorted, unconditionally")])
+
+# ---- CliRun.v / CliRunProofs.v: main.run and main() ----
+_extend("C18", [("""   library's is checked against the real binary (the OS is outside the model: partial).""", """   library's is checked against the real binary (the OS is outside the model: partial).
+   Model/CliRun.v is the transcription of cmd/bcl/main.go (run and main): which library calls are made for the
+   parsed flags and in which order, what reaches stdout, which file is written, the exit status; the outside world
+   (standard input, readable files, whether the dump target can be created and written) is a parameter.  The real
+   binary is compared with this model on every case (exit status, stdout, file written, error or not).  Theorems:
+   the tool IS the library call sequence (C18_run_is_interpret: without --bdump/--bload, stdout, result and status
+   are exactly those of Interpret with the same options); exit status 0 iff no error, 1 iff some error of run, 2 iff
+   a usage error (C18_status_spec, C18_main_status_0/1/2); a successful --bdump only adds the file, a failing one executes nothing and writes
+   nothing (C18_bdump_ok_only_writes, C18_bdump_target_fails); --bdump followed by --bload reproduces status, result and execution output
+   (C18_bdump_then_bload; size bounds of the dump codec as hypotheses); -d/-t/-s only observe at tool level
+   (C18_options_only_observe); flag order and clusters lifted to main (C18_main_flag_order, C18_main_cluster).""")],
+        """From BCL Require Import Model.Api Model.DumpLoad Model.CliRun Proofs.CliRunProofs.""",
+        [("C18_run_is_interpret", "CliRunProofs", "run_is_interpret", ""),
+         ("C18_status_spec", "CliRunProofs", "status_spec", ""),
+         ("C18_status_1", "CliRunProofs", "status_1_spec", ""),
+         ("C18_main_status_2", "CliRunProofs", "main_status_2", ""),
+         ("C18_main_status_1", "CliRunProofs", "main_status_1", ""),
+         ("C18_main_status_0", "CliRunProofs", "main_status_0", ""),
+         ("C18_bdump_ok_only_writes", "CliRunProofs", "bdump_ok_only_writes", ""),
+         ("C18_bdump_target_fails", "CliRunProofs", "bdump_target_fails", ""),
+         ("C18_bdump_then_bload", "CliRunProofs", "bdump_then_bload", ""),
+         ("C18_options_only_observe", "CliRunProofs", "options_only_observe", ""),
+         ("C18_main_flag_order", "CliRunProofs", "cli_flag_order", ""),
+         ("C18_main_cluster", "CliRunProofs", "cli_cluster", ""),
+         ("C18_never_model_gives_up", "CliRunProofs", "never_model_gives_up", "the model's own failure constructors are unreachable on the source path, except for the excluded repetition case")])
+PROPS["C18"] = (PROPS["C18"][0].replace(" (argument parsing part)", ""),) + PROPS["C18"][1:]
